@@ -386,10 +386,11 @@ def build_replayer(scr: Scratch):
     if REPO != "/repo":
         # development only (VERIF_REPO): build a copy of the harness against the scratch worktree
         hdir = os.path.join(scr.dir, "harness-dev")
-        shutil.copytree(HARNESS, hdir, ignore=shutil.ignore_patterns("target"))
-        ct = os.path.join(hdir, "Cargo.toml")
-        txt = open(ct).read().replace('path = "/repo"', 'path = "%s"' % REPO)
-        open(ct, "w").write(txt)
+        if not os.path.isdir(hdir):
+            shutil.copytree(HARNESS, hdir, ignore=shutil.ignore_patterns("target"))
+            ct = os.path.join(hdir, "Cargo.toml")
+            txt = open(ct).read().replace('path = "/repo"', 'path = "%s"' % REPO)
+            open(ct, "w").write(txt)
     p = subprocess.run(["cargo", "build", "--offline", "--bin", "replay", "--target-dir", tdir],
                        cwd=hdir, stdout=subprocess.PIPE, stderr=subprocess.STDOUT, env=env_base(), text=True)
     exe = os.path.join(tdir, "debug", "replay")
